@@ -33,7 +33,7 @@ ASSUMPTIONS = ["exact (integer/dyadic) values so that vector sums are order "
 TMP = c01.TMP
 
 FNS = ["2v+1", "square", "neg", "div_sum", "minus_min", "zero", "by_id",
-       "by_md", "zero_some", "indicator", "as_ints"]
+       "by_md", "zero_some", "indicator", "as_ints", "by_id_defaults"]
 RANKS = ["average", "min", "max", "dense", "ordinal"]
 
 
@@ -112,6 +112,10 @@ def user_fn(name):
         return lambda v, i, md: v > 2
     if name == "as_ints":
         return lambda v, i, md: (v * 2).astype(np.int64)
+    if name == "by_id_defaults":
+        # the documented three arguments, declared with defaults
+        return lambda v, i=None, md=None: v * (2 if i is None
+                                               else len(i) + 1)
     if name == "by_id":
         return lambda v, i, md: v * (len(i) + 1)
     if name == "by_md":
@@ -140,7 +144,7 @@ def ref_vector(name, vec, i, md):
         return [1.0 if x > 2 else 0.0 for x in vec]
     if name == "as_ints":
         return [float(int(x * 2)) for x in vec]
-    if name == "by_id":
+    if name in ("by_id", "by_id_defaults"):
         return [x * (len(i) + 1) for x in vec]
     if name == "by_md":
         k = 3 if md is not None and md.get("k") == "a" else 5
@@ -231,6 +235,13 @@ def check(case, rec):
             calls.append((sorted(np.array(v, dtype=float).tolist()), str(i),
                           observe.plain(md) if md is not None else None))
             return pure(v, str(i), md)
+        if name == "by_id_defaults":
+            # (the function handed over declares its parameters the way the
+            # user's function does)
+            spy3 = spy
+
+            def spy(v, i=None, md=None):       # noqa: F811
+                return spy3(v, i, md)
         r = t.transform(spy, axis, inplace) if case.get("positional") else \
             t.transform(spy, axis=axis, inplace=inplace)
         if sorted(c[1] for c in calls) != sorted(ids):
@@ -340,6 +351,10 @@ def check(case, rec):
             inp, out = os.path.join(d, "in.biom"), os.path.join(d, "out.biom")
             with h5py.File(inp, "w") as f:
                 t.to_hdf5(f, "vf")
+            if (len(ref.obs) + 2 * len(ref.samp)) % 3 == 0:
+                # the result replaces the input file
+                out = inp
+                rec.cls("cli-output-over-input")
             from ..cli import invoke
             rc, out_ = invoke(normalize_table, "normalize-table",
                               ["-i", inp, "-o", out, mode, "-a", axis],
